@@ -88,7 +88,7 @@ theorem charLoop_content (line col fuel : Nat) (s : LexSt) (v : List Char) (n : 
           · exact ⟨ch, rfl, pc ch rfl⟩
           · obtain ⟨out, h1, h2⟩ := ih s1 (v ++ ch) (n + 1)
             refine ⟨ch ++ out, by rw [h1, List.append_assoc], ?_⟩
-            exact Content.trans (p1 ch rfl).follows (charLoop_follows _ _ _ _ _ _) (pc ch rfl) h2
+            exact Content.trans_moves (p1 ch rfl).follows.moves (charLoop_moves _ _ _ _ _ _) (pc ch rfl) h2
 
 theorem strLoop_content (fuel : Nat) (s : LexSt) (v : List Char) :
     ∃ out, (strLoop fuel s v).2.1 = v ++ out ∧ Content false s (strLoop fuel s v).1 out := by
@@ -283,10 +283,10 @@ theorem parseChar_content {s s' : LexSt} {t : Token} (h : parseChar s = some (s'
             have f1 : Follows s s1 := by have := (popN_spec n s).1; rwa [hpn] at this
             have f2 : Follows s1 s2 := by
               have := ((popOne_spec false false s1).1 q (by rw [hpo])).follows; rwa [hpo] at this
-            have f3 : Follows s2 s3 := by
-              have := charLoop_follows s.line s.col (s2.rest.length + 1) s2 (pre ++ q) 0; rwa [hcl] at this
+            have f3 : Moves s2 s3 := by
+              have := charLoop_moves s.line s.col (s2.rest.length + 1) s2 (pre ++ q) 0; rwa [hcl] at this
             have c12 := Content.trans f1 f2 c1 c2
-            have c123 := Content.trans (f1.trans f2) f3 c12 hc
+            have c123 := Content.trans_moves (f1.trans f2).moves f3 c12 hc
             rw [hv]
             apply tokContent_value
             refine Content.congr_pos ?_ c123
